@@ -636,6 +636,11 @@ FAMILIES = {
                           "tk": 1, "close": 1, "ar": 1, "am": 1}, max_ops=4, max_threads=4, mws=(0, 1)), 30),
     "droppable": (dict(policies=ALLPOL, caps=[1, 2], directs=(0, 2), chans=(0, 1), chan_pols=["block"],
                        ops={"d": 10, "gs": 2, "close": 2}, max_ops=4, max_threads=4, stop=1.0, only_drop=True), 30),
+    # engine F only: middleware hooks that dispatch through the dispatcher they are handed (the
+    # model's callbacks are pure); at most 15 actions against capacity 16, so that the reducer
+    # context never waits on its own full queue
+    "mw_nested": (dict(policies=ALLPOL, caps=[16], directs=(0, 1), reducers=(1, 2), mws=(1, 2), verdict=0.0,
+                       ops={"d": 12, "gs": 1}, max_ops=4, max_threads=3), 0),
     "metrics": (dict(policies=ALLPOL, directs=(0, 2), reducers=(0, 2), effects=0.2, verdict=0.3,
                      ops={"d": 12, "gm": 3, "close": 1}, max_ops=5, mws=(0, 2), max_threads=3), 15),
 }
@@ -660,15 +665,37 @@ PROPERTY_FAMILIES = {
 }
 
 
+def nested_extra(sc, rng):
+    """`mwd` lines for a scenario of family mw_nested: up to 3 hooks dispatch a fresh action, and the
+    first reducer is slow for one early action so that the queue holds returned dispatches when the
+    hook runs"""
+    mws, acts = [], []
+    for ln in sc.split("\n"):
+        w = ln.split()
+        if w and w[0] == "init" and w[1] == "mws" and w[2] != "-":
+            mws = [int(x) for x in w[2].split(",")]
+        if w and w[0] == "t":
+            acts += [int(o.split(".")[2]) for o in w[2:] if o.startswith("d.")]
+    if not mws or not acts:
+        return ""
+    out = []
+    for k in range(rng.randint(1, 3)):
+        out.append("mwd %d %s %d %d" % (rng.choice(mws), rng.choice("red"), rng.choice(acts), 7001 + k))
+    out.append("delay reduce 0 %d %d" % (rng.choice(acts), rng.choice([300, 1000, 2000])))
+    return "\n".join(out)
+
+
 # engine F: (family, extra scenario lines, quick count, thorough count)
 PROPERTY_FREE = {
-    "C01": [("mp_dispatch", "", 200, 4000)],
-    "C02": [("mp_policies", "", 200, 4000)],
+    "C01": [("mp_dispatch", "", 200, 4000),
+            # registration calls racing a slow reducer chain
+            ("registration", "delay reduce 0 0 300", 100, 2000)],
+    "C02": [("mp_policies", "", 200, 4000), ("mw_nested", nested_extra, 150, 3000)],
     "C03": [("mp_dispatch", "", 200, 4000)],
     "C04": [("stop_race", "", 200, 4000)],
     "C05": [("mp_dispatch", "", 200, 4000)],
     "C06": [("drop_burst", "", 200, 4000)],
-    "C07": [("registration", "", 200, 4000)],
+    "C07": [("registration", "", 200, 4000), ("registration", "delay reduce 0 0 300", 150, 3000)],
     "C08": [("readers", "free readers 3\nfree cbread\nfree slowclone 20000", 200, 4000),
             ("readers", "free readers 2\nfree cbread", 100, 2000)],
     "C09": [("subs_lifecycle", "", 200, 4000),
@@ -720,7 +747,11 @@ def lock_property(rep):
         knobs, _ = FAMILIES[fam]
         n = nt if rep.tier == "thorough" else nq
         g = Gen(rng_for(rep, fam + "/free"), **knobs)
-        scens = [g.scenario() + ("\n" + extra if extra else "") for _ in range(n)]
+        scens = []
+        for _ in range(n):
+            sc0 = g.scenario()
+            ex = extra(sc0, g.rng) if callable(extra) else extra
+            scens.append(sc0 + ("\n" + ex if ex else ""))
         if mon:
             run_free(rep, scens, fam + "/free", mon)
             rules.append("%s (engine F) x%d" % (fam, n))
